@@ -1793,6 +1793,7 @@ fn exec_cmd_inner(b: &mut Built, cmd: &Cmd) -> Res {
 // One execution
 // ---------------------------------------------------------------------------
 
+#[derive(Clone)]
 pub struct Scenario {
     pub spec: Arc<BenchSpec>,
     pub cmds: Vec<Cmd>,
